@@ -34,11 +34,11 @@ type loopInfo struct {
 	allocs       bool
 	elemBases    map[string][]ssa.Value // elem key -> base slice values (nil entry => unknown base)
 	// per-run
-	pre      *State
-	head     *State
-	invs     []*invInst
-	dec0     *Term
-	spec     *LoopSpec
+	pre  *State
+	head *State
+	invs []*invInst
+	dec0 *Term
+	spec *LoopSpec
 }
 
 type invInst struct {
@@ -54,18 +54,18 @@ type autoInv struct {
 }
 
 type frame struct {
-	vc     *VC
-	fn     *ssa.Function
-	vals   map[ssa.Value]*Val
-	inst   string
-	depth  int
-	top    bool
-	rets   []*retInfo
-	loops  []*loopInfo
-	loopOf map[*ssa.BasicBlock]*loopInfo
-	cells  map[*ssa.Alloc]bool
-	stack  []*ssa.Function
-	iters  map[ssa.Value]*Val
+	vc         *VC
+	fn         *ssa.Function
+	vals       map[ssa.Value]*Val
+	inst       string
+	depth      int
+	top        bool
+	rets       []*retInfo
+	loops      []*loopInfo
+	loopOf     map[*ssa.BasicBlock]*loopInfo
+	cells      map[*ssa.Alloc]bool
+	stack      []*ssa.Function
+	iters      map[ssa.Value]*Val
 	provingInv bool
 }
 
@@ -991,7 +991,12 @@ func (fr *frame) execBinOp(st *State, in *ssa.BinOp) {
 			r = vc.wrap(vc.iAdd(x, y), xt)
 			vc.overflowCheck(st, r, xt, in.Pos())
 		case token.SUB:
-			r = vc.wrap(vc.iSub(x, y), xt)
+			if x.Op == "bshl" && len(x.Args) == 3 && x.Args[1].Op == "1" && y.Op == "1" && len(y.Args) == 0 {
+				// (1 << s) - 1 on an unsigned word: the low mask (exact when 0 <= s < width, as the shift obligation demands)
+				r = vc.lowMask(st, x.Args[0], x.Args[2])
+			} else {
+				r = vc.wrap(vc.iSub(x, y), xt)
+			}
 			vc.overflowCheck(st, r, xt, in.Pos())
 		case token.MUL:
 			r = vc.wrap(vc.iMul(x, y), xt)
@@ -1579,4 +1584,13 @@ func (vc *VC) bnotTerm(x *Term, w int) *Term {
 		vc.facts = append(vc.facts, Eq(r, vc.iSub(IntLit(new(big.Int).Sub(pow2(w), big.NewInt(1))), x)))
 	}
 	return r
+}
+
+// lowMask: (1 << s) - 1 for an unsigned word of width w; for s >= w Go gives 2^w-1 (all ones), modelled by the ite.
+func (vc *VC) lowMask(st *State, w, s *Term) *Term {
+	vc.bitTheory()
+	wv, _ := intLitVal(w)
+	all := IntLit(new(big.Int).Sub(pow2(int(wv.Int64())), big.NewInt(1)))
+	vc.constBits(new(big.Int).Sub(pow2(int(wv.Int64())), big.NewInt(1)), int(wv.Int64()))
+	return Ite(App("<", SBool, s, w), App("lowmask", SInt, s), all)
 }
